@@ -94,7 +94,7 @@ def run(pid, tier, replay=None):
     # (3) the class programs once more as interactive sessions, one entry per prompt line: every entry is compiled into the
     #     live module and its sites get cache slots behind those of the earlier entries; cached and forced-miss
     sess = []
-    for cid, ast in (sess_only if sess_only is not None else [(c, a) for c, a in progs if c.startswith("cls:")]):
+    for cid, ast in (sess_only if sess_only is not None else [(c, a) for c, a in progs if c.startswith("cls:")][:2000]):
         sast = ast if ast["k"] == "session" else lang.Session(list(ast["kids"]))
         rec = lang.case_record(cid if cid.startswith("s:") else "s:" + cid, sast)
         rec["ast"] = sast
